@@ -17,6 +17,8 @@ type Err struct {
 	Node  int  // AST position of the form whose evaluation raised it (-1 unknown)
 	Chain []Frame
 	Msg   string
+	// Pending counts the conditions that were being handled when this one was raised.
+	Pending int
 }
 
 // Frame is one active call recorded when an error is raised.
@@ -71,6 +73,7 @@ type Interp struct {
 	opNode   int // position of the special form being applied (read at operator entry)
 	condStk  []*Err
 	CondIDs  []int // error identities seen by (host-cond ...), 0 = none pending
+	CondLog  []CondEv // condlog.go
 	curNode  int
 	// Sources maps a source text to its forms, for load-string (the reference
 	// has no reader of its own: the generator supplies text and forms).
@@ -132,7 +135,7 @@ func (in *Interp) cond(name string, data []*V, msg string) *Err {
 	in.errID++
 	ch := make([]Frame, len(in.chain))
 	copy(ch, in.chain)
-	return &Err{Cond: name, Data: data, ID: in.errID, Node: in.curNode, Chain: ch, Msg: msg}
+	return &Err{Cond: name, Data: data, ID: in.errID, Node: in.curNode, Chain: ch, Msg: msg, Pending: len(in.condStk)}
 }
 
 func (in *Interp) tick() {
@@ -1048,6 +1051,7 @@ func opHandlerBind(in *Interp, env *Env, a []*V) (*V, *Err) {
 					return nil, in.errf("handler not a function")
 				}
 				in.condStk = append(in.condStk, e)
+				in.condLog("enter")
 				args := append([]*V{QSym(e.Cond)}, e.Data...)
 				var rv *V
 				var re *Err
@@ -1061,6 +1065,7 @@ func opHandlerBind(in *Interp, env *Env, a []*V) (*V, *Err) {
 					}
 					rv, re = in.Apply(env, h.Fn, args, self)
 				}
+				in.condLog("leave")
 				in.condStk = in.condStk[:len(in.condStk)-1]
 				return rv, re
 			}
